@@ -29,7 +29,13 @@ func H_C14_quantifier() {
 	m := mapC14()
 	d := map[string]interface{}{"m": m}
 	var expr string
-	switch vChoose(6) {
+	switch vChoose(9) {
+	case 6: // key-only bindings: one key decisive, the others reach an erroring clause
+		expr = "any m as k { k == \"b\" or zz == 1 }"
+	case 7:
+		expr = "all m as k, _ { k != \"a\" and zz == 1 }"
+	case 8:
+		expr = "any m as k { k == \"07\" or k matches \"(\" }"
 	case 0:
 		expr = "any m as k, v { v == 1 }"
 	case 1:
